@@ -143,6 +143,8 @@ pub struct NodeStream {
     /// (ro flag, line) of requests the node sent since the last snapshot
     pub requests_since_snap: Vec<(bool, String)>,
     pub first_seen_in_table: HashMap<SocketAddrV4, u64>,
+    pub has_bootstrap: bool,
+    pub sent_since_snap: usize,
 }
 
 impl NodeStream {
@@ -167,6 +169,8 @@ impl NodeStream {
             replies_since_snap: vec![],
             requests_since_snap: vec![],
             first_seen_in_table: HashMap::new(),
+            has_bootstrap: false,
+            sent_since_snap: 0,
         }
     }
 
@@ -194,6 +198,7 @@ impl NodeStream {
             match Msg::from_bytes(&bytes) {
                 Ok(m) => {
                     let (line, key) = self.canon(to, &m);
+                    self.sent_since_snap += 1;
                     if let Some(k) = &key {
                         self.reqs.insert(k.clone(), m.transaction_id());
                         self.req_sent_at.insert(k.clone(), now);
@@ -566,6 +571,13 @@ impl NodeStream {
                 }
             }
         }
+        // an empty table is bootstrapped again: a node with a bootstrap list never sits idle on it
+        if let Some(prev) = &self.last_snapshot {
+            if prev.routing_table.is_empty() && s.routing_table.is_empty() && self.has_bootstrap && self.sent_since_snap == 0 {
+                out.violation("C14", "empty-table-not-bootstrapped", "the routing table was empty at two successive snapshots and the node sent nothing in between: it is not retrying its bootstrap nodes".into());
+            }
+        }
+        self.sent_since_snap = 0;
         for a in &in_table {
             self.first_seen_in_table.entry(*a).or_insert(now);
         }
@@ -584,16 +596,33 @@ impl NodeStream {
         if !pending.is_empty() {
             out.violation("C06", "call-hangs", format!("all requests expired and the node was idle for a minute, but these calls have not returned: {}", pending.join(" ; ")));
         }
-        // a node whose routing table is empty keeps retrying its bootstrap lookup: not a leak
-        let retrying = s.routing_table.is_empty() && s.iterative_queries.iter().all(|t| *t == s.id);
+        // the lookup of the own id (bootstrap retry, 15-minute refresh) is maintenance, not a leak
+        let retrying = s.iterative_queries.iter().all(|t| *t == s.id);
         if (!s.iterative_queries.is_empty() && !retrying) || !s.put_queries.is_empty() {
             out.violation("C20", "query-leak", format!("at quiescence {} lookups and {} puts are still registered", s.iterative_queries.len(), s.put_queries.len()));
         }
         if !s.put_senders.is_empty() || !s.get_senders.is_empty() {
             out.violation("C20", "caller-leak", format!("at quiescence {} put callers and {} get callers are still parked", s.put_senders.len(), s.get_senders.len()));
         }
-        if s.inflight_live != 0 && !(retrying && !s.iterative_queries.is_empty()) {
-            out.violation("C20", "inflight-leak", format!("at quiescence {} requests are still in flight", s.inflight_live));
+        // periodic maintenance (pings, lookups of the own id) is not call state
+        let now = verif::now_ns();
+        let call_related: Vec<String> = s
+            .inflight
+            .iter()
+            .filter(|(_, _, at)| now - at < s.request_timeout_ns)
+            .filter_map(|(tid, _, _)| self.all_sent.iter().rev().find(|x| x.msg.transaction_id() == *tid && x.key.is_some()))
+            .filter(|x| match x.msg.message_type() {
+                MessageType::Request(r) => match &r.request_type {
+                    RequestTypeSpecific::Ping => false,
+                    RequestTypeSpecific::FindNode(a) => a.target != s.id,
+                    _ => true,
+                },
+                _ => false,
+            })
+            .map(|x| x.line.clone())
+            .collect();
+        if !call_related.is_empty() {
+            out.violation("C20", "inflight-leak", format!("at quiescence {} call-related requests are still in flight, e.g. {}", call_related.len(), call_related[0]));
         }
     }
 
@@ -665,6 +694,8 @@ impl Stream for NodeStream {
         self.replies_since_snap.clear();
         self.requests_since_snap.clear();
         self.first_seen_in_table.clear();
+        self.has_bootstrap = !matches!(kv(args, "boot"), Some("-") | None);
+        self.sent_since_snap = 0;
         // the first maintenance ran inside `wait_parked`; learn our id through a snapshot-free path:
         // the bootstrap find_node (if any) carries it, otherwise `init` reports it
     }
@@ -724,6 +755,13 @@ impl Stream for NodeStream {
                 verif::advance(Duration::from_nanos(t[1].parse().expect("ns")));
                 verif::now_ns().to_string()
             }
+            "dbgrt" => match self.snapshot(out) {
+                Some(s) => {
+                    let now = verif::now_ns();
+                    format!("rt={:?}", s.routing_table.iter().map(|(_, a, at)| (a.ip().octets()[3], (now - at) / 1_000_000_000)).collect::<Vec<_>>())
+                }
+                None => "dead".into(),
+            },
             // debugging aid (not generated): the retained in-flight requests, through a snapshot
             "dbgreqs" => match self.snapshot(out) {
                 Some(s) => {
@@ -913,6 +951,8 @@ pub struct VPeer {
     pub forge: u8,
     /// added to the network latency for this peer's replies
     pub extra_delay: u64,
+    /// added to the latency of this peer's replies to put requests only
+    pub put_delay: u64,
 }
 
 pub struct VNet {
@@ -940,7 +980,7 @@ impl VNet {
             let addr = SocketAddrV4::new(ip, 6881);
             let id = Id::from_bytes(rng.id20()).expect("id");
             by_addr.insert(addr, i);
-            peers.push(VPeer { id, addr, alive: true, mode: 0, read_only: false, imm: HashMap::new(), muts: HashMap::new(), peers: HashMap::new(), speers: HashMap::new(), put_reply: 0, forge: 0, extra_delay: 0 });
+            peers.push(VPeer { id, addr, alive: true, mode: 0, read_only: false, imm: HashMap::new(), muts: HashMap::new(), peers: HashMap::new(), speers: HashMap::new(), put_reply: 0, forge: 0, extra_delay: 0, put_delay: 0 });
         }
         VNet { peers, by_addr }
     }
@@ -1184,7 +1224,8 @@ impl<'a> Driver<'a> {
             let from = s.to;
             let mt = self.net.reply(i, req, self.s.addr);
             let ro = self.net.peers[i].read_only;
-            let mut due = now + self.latency + self.net.peers[i].extra_delay;
+            let is_put = matches!(req.request_type, RequestTypeSpecific::Put(_));
+            let mut due = now + self.latency + self.net.peers[i].extra_delay + if is_put { self.net.peers[i].put_delay } else { 0 };
             if self.rng.below(100) < self.drop_pct {
                 continue;
             }
@@ -1596,6 +1637,41 @@ pub fn run(out: &mut Out, seed: u64, thorough: bool, replay: Option<&str>) {
         d.out.mark_distinct(fnv(format!("G{round}").as_bytes()));
         d.s.shutdown();
     }
+    // ---- G2: every peer goes silent until the table is empty, then the bootstrap node comes back
+    for round in 0..(if thorough { 2 } else { 1 }) {
+        t0 += 10_000_000_000_000;
+        let net = VNet::new(&mut rng, 4 + round, true);
+        let boot = vec![net.peers[0].addr];
+        let mut d = Driver::new(out, rng.next(), net);
+        d.begin("c", &boot, None, rng.next() % 1_000_000 + 1, t0);
+        d.run_for(3 * SEC, 10 * MS);
+        d.run("snap".into());
+        for p in d.net.peers.iter_mut() {
+            p.alive = false;
+        }
+        for minute in 0..27 {
+            d.run_for(60 * SEC, SEC);
+            if minute % 5 == 4 {
+                d.run("snap".into());
+            }
+        }
+        d.net.peers[0].alive = true;
+        for minute in 0..8 {
+            d.run_for(60 * SEC, SEC);
+            if minute % 2 == 1 {
+                d.run("snap".into());
+            }
+        }
+        let snap = d.s.last_snapshot.clone();
+        if let Some(sn) = snap {
+            if sn.routing_table.is_empty() {
+                d.out.violation("C14", "table-stays-empty", "the bootstrap node has been reachable again for 8 minutes but the routing table is still empty".into());
+            }
+        }
+        d.finish();
+        d.out.mark_distinct(fnv(format!("G2{round}").as_bytes()));
+        d.s.shutdown();
+    }
     // ---- H: lossy, duplicating, late networks and overlapping calls on equal and different
     //         targets (C06): every call must return, once
     for round in 0..(if thorough { 40 } else { 8 }) {
@@ -1636,6 +1712,37 @@ pub fn run(out: &mut Out, seed: u64, thorough: bool, replay: Option<&str>) {
         }
         d.finish();
         d.out.mark_distinct(d.rng.0 ^ 0x11 ^ round as u64);
+        d.s.shutdown();
+    }
+    // ---- J: a find_node on the target of a put that is storing, then a superseding put (C06)
+    for with_find_node in [true, false] {
+        t0 += 10_000_000_000_000;
+        let mut net = VNet::new(&mut rng, 4, true);
+        for p in net.peers.iter_mut() {
+            p.put_delay = 300 * MS;
+        }
+        let boot = vec![net.peers[0].addr];
+        let mut d = Driver::new(out, rng.next(), net);
+        d.begin("c", &boot, None, rng.next() % 1_000_000 + 1, t0);
+        d.run_for(2 * SEC, 10 * MS);
+        let first = put_mut_call(9, 5, b"first", None, None);
+        d.api(format!("{first} expect=ok/err:no-closest-nodes"));
+        // until the first put is storing
+        let mut guard = 0;
+        while !d.s.all_sent.iter().any(|x| x.key.as_deref().map(|k| k.contains("/put/")).unwrap_or(false)) && guard < 4000 {
+            d.pump(MS);
+            guard += 1;
+        }
+        let item = MutableItem::new(&key_from_seed(9), b"first", 5, None);
+        if with_find_node {
+            d.api(format!("find_node t={}", hex(item.target().as_bytes())));
+            d.run_for(100 * MS, 5 * MS);
+        }
+        let second = put_mut_call(9, 6, b"second", None, Some(5));
+        d.api(second);
+        d.settle(20 * SEC, 10 * MS);
+        d.finish();
+        d.out.mark_distinct(fnv(format!("J{with_find_node}").as_bytes()));
         d.s.shutdown();
     }
     // ---- I: more than 1000 distinct lookup targets roll the lookup cache (C20)
